@@ -494,6 +494,34 @@ def shared_sht_worker(part, job):
         for k in poses:
             fresh[(cn, k)] = np.asarray(fn(SHT(L), k), dtype=float)
     coeffs, inv0 = promolecule_density_descriptor(SHT(L), zs, p0, coefficients=True)
+    # the two things a call hands back together belong together: the coefficients returned next to a descriptor vector are the ones the
+    # vector was computed from - without and with a property channel (then they are the complex expansion shape + i * property)
+    from chmpy.shape.shape_descriptors import make_invariants
+
+    for cname, call in (("promolecule", lambda **kw: promolecule_density_descriptor(SHT(L), zs, p0, coefficients=True, **kw)),
+                        ("stockholder", lambda **kw: stockholder_weight_descriptor(SHT(L), zs, p0, ez, ep, bounds=(0.1, 9.0), coefficients=True, **kw))):
+        for prop in (None, "d_norm", "esp"):
+            part.ev()
+            part.tr()
+            try:
+                c_, v_ = call(**({"with_property": prop} if prop else {}))
+                ref_v = np.asarray((promolecule_density_descriptor(SHT(L), zs, p0, **({"with_property": prop} if prop else {})) if cname == "promolecule" else
+                                    stockholder_weight_descriptor(SHT(L), zs, p0, ez, ep, bounds=(0.1, 9.0), **({"with_property": prop} if prop else {}))), dtype=float)
+            except KeyError:
+                continue        # a property this surface does not offer
+            except Exception as e:
+                part.fail("coefficients:raise", "%s descriptor of %s with coefficients=True and property %s raised %s: %s" % (cname, name, prop, type(e).__name__, str(e)[:80]), {"kind": "shared-sht", "mol": name, "L": L})
+                continue
+            c_ = np.asarray(c_)
+            full = c_ if c_.size == (L + 1) ** 2 else np.asarray(SHT(L).complete_coefficients(c_))
+            again = np.asarray(make_invariants(L, np.ascontiguousarray(full, dtype=np.complex128)), dtype=float)
+            v_ = np.asarray(v_, dtype=float)
+            if v_.shape != ref_v.shape or not (np.abs(v_ - ref_v).max() <= 1e-9 * np.abs(ref_v).max()):
+                part.fail("coefficients:vector", "%s descriptor of %s (property %s): the vector returned with coefficients=True differs from the one returned without" % (cname, name, prop), {"kind": "shared-sht", "mol": name, "L": L})
+            elif again.shape != v_.shape or not (np.abs(again ** 3 - v_ ** 3).max() <= 1e-6 * np.abs(v_ ** 3).max()):
+                part.fail("coefficients:inconsistent", "%s descriptor of %s (property %s): the invariants of the coefficients handed back next to the vector are not the vector (max cubed dev %.3g)"
+                          % (cname, name, prop, float(np.abs(again ** 3 - v_ ** 3).max() / np.abs(v_ ** 3).max()) if again.shape == v_.shape else np.inf), {"kind": "shared-sht", "mol": name, "L": L})
+            part.outcome(("coefficients", cname, prop))
     between = {
         "nothing": lambda sht: None,
         "evaluate_at_points": lambda sht: [sht.evaluate_at_points(coeffs, th, ph) for th, ph in ((0.3, 0.2), (1.1, 2.9), (2.6, 5.1))],   # one colatitude per call
